@@ -22,6 +22,12 @@ CHECKS = {
  "C07": dict(cat="proof", tech="contract-based deductive: all 12 conversions + 4 from_Matrix traced from the real code; same-rotation and validity obligations decided by ring normal forms per Shepperd/shadow path (ALG), |r|<=1 and divisor-nonzero by SMT, pitch range structurally",
              text="M(conv(X)) = R_spec(X) exactly for all inputs outside the Euler gimbal band, on every Shepperd and shadow branch and for both quaternion signs; unit norm, orthonormality/det +1, |r| <= 1 and pitch = asin(.) are discharged per branch. The in-band 1e-3 tolerance clause is not decided.",
              note=A_GRAPH + "; lemma L-SO3; z3/cvc5; requires away from q0 = -1 for quaternion->MRP (listed)", ref="5/C07"),
+ "C10": dict(cat="proof", tech="contract-based deductive: util routines traced from the real code; rational/polynomial identities decided by ring normal forms (ALG); ca.qr replaced by its contract with machine-checked certificates; RK4 order conditions as an identity modulo h^5",
+             text="sqrt_covariance_predict: lower-triangularity and the Lyapunov identity; sqrt_correct: K S = P H^T, Ss Ss^T = S, W+W+^T = (I-KH)P = P - K S K^T as consequences of the QR contract; LDL^T / UDU^T reconstruction with unit-triangular factors; RK4 exact for cubic-in-time fields, equal to the 4th-order Taylor polynomial for linear systems and for a generic scalar polynomial field. Each for all inputs, per listed size.",
+             note=A_GRAPH + "; external contract of ca.qr assumed; sizes enumerated (n is a Python loop bound), 'for all n' not claimed; smooth non-polynomial fields by the standard order-condition argument", ref="5/C10"),
+ "C18": dict(cat="proof", tech="contract-based deductive: Bezier class and derive_* functions traced from the real code; polynomial/rational identities in (t, T, control points, boundary data) decided by ring normal forms (ALG)",
+             text="eval = Bernstein polynomial, end points, every derivative order m <= n equals the m-th time derivative, cubic and septic boundary-value solvers meet every boundary condition at both ends, stacked trajectory outputs are successive derivatives; for all t, T > 0, control points and boundary data, per listed degree/dimension.",
+             note=A_GRAPH + "; CasADi symbolic differentiation on the spec side; degrees enumerated (shipped 3 and 7, generic class up to 10 in thorough)", ref="5/C18"),
 }
 NA = {
  "C17": "closed-loop convergence of the hybrid cascade from an envelope of initial conditions is a whole-trajectory property; no pre/postcondition on a function of /repo expresses it short of a Lyapunov certificate (its per-call ingredients are C13, C15, C16)",
